@@ -245,6 +245,12 @@ class NodeSpace:
             def __new__(cls, *a, **k):
                 if len(a) == 1 and not k:
                     t = builtins.type(a[0])
+                    # a symbolic int *is* an int to the code under test (`type(c) is int`)
+                    # ... and the clones' `int` is the shim, so an exact int answers with the same object
+                    if t is SymInt or t is builtins.int:
+                        return space.world.builtins.get("int", builtins.int)
+                    if t is SymReal or t is builtins.float:
+                        return space.world.builtins.get("float", builtins.float)
                     real = t.__dict__.get("_symx_real") if isinstance(t, builtins.type) else None
                     if real is not None:
                         return space.proxy(real)
